@@ -31,6 +31,7 @@ type c03Resp struct {
 
 type c03Query struct {
 	Listener string
+	Method   string      // http listeners: GET | POST | POST-CHUNKED (a POST without Content-Length); "" = by position
 	LateFin  bool        // quic: the client sends its STREAM FIN only after reading the response
 	Batch    []*c03Query // stream listeners: the queries that shared this query's connection
 	Wire     []byte
@@ -251,6 +252,9 @@ func c03Drive(b *Bed, listener string, qs []*c03Query, wait time.Duration) {
 				if i%2 == 0 {
 					method = http.MethodGet
 				}
+				if q.Method != "" {
+					method = q.Method
+				}
 				r := hc.Do(method, q.Wire, nil)
 				q.TSend, q.Status = r.TSend, r.Status
 				if r.Err != nil {
@@ -414,6 +418,11 @@ func runC03(c *Ctx) {
 				if listener == "quic" {
 					for qi, q := range qs {
 						q.LateFin = qi%2 == 1
+					}
+				}
+				if listener == "http" || listener == "fasthttp" {
+					for qi, q := range qs {
+						q.Method = []string{"GET", "POST", "POST-CHUNKED", "POST"}[qi%4]
 					}
 				}
 				phaseQs = append(phaseQs, qs...)
